@@ -2,6 +2,7 @@ CONSTANTS
   Descs = {1, 2, 3, 4, 5, 6, 7, 8, 9, 10}
   BlankDescs = {9, 10}
   NewDesc = 9
+  InitRenderDescs = {1, 2, 4}
   ExportDescs = {5, 6, 7, 8}
   GpuDescs = {7}
   PVariant = "asis"
